@@ -253,13 +253,14 @@ def post_bintest(run, snap, res, args, kwargs):
         segmean.append(hits[0]["log2"])
     anti = [b["gene"] in ("Antitarget", "Background") for b in bins]
     # weight exactly 1: the deviate is +-infinity (p = 0) for any non-zero residual, and 0/0 -- no defined p -- for a residual of exactly 0
-    if any(b["weight"] == 1 and b["log2"] == segmean[i] for i, b in enumerate(bins)):
-        return run.ood(mon, "p-undefined:weight-1-and-zero-residual")
+    # (the limit of the formula as the weight approaches 1 is p = 1 for a residual of exactly 0: the bin does not deviate at all)
     w1 = sum(b["weight"] == 1 for b in bins)
+    if any(b["weight"] == 1 and b["log2"] == segmean[i] for i, b in enumerate(bins)):
+        run.extra["bintest:weight-1-bin-exactly-at-its-segment-level"] += 1
 
     def pval(i):
         if bins[i]["weight"] == 1:
-            return 0.0
+            return 1.0 if bins[i]["log2"] == segmean[i] else 0.0
         return 2.0 * sps.norm.cdf(-abs((bins[i]["log2"] - segmean[i]) / math.sqrt(1 - bins[i]["weight"])))
 
     def expected(first_filter):
